@@ -525,6 +525,13 @@ class Normalizer:
                 st.test = t
                 f2 = dict(facts)
                 f3 = dict(facts)
+                # generic literal facts: the (negation-normalised) test itself is known inside its branches
+                if simple_operand(t) and is_pure(t):
+                    nt = canon_test(negate(t))
+                    f2['L:' + dump(t)] = ('lit', True, t)
+                    f2['L:' + dump(nt)] = ('lit', False, t)
+                    f3['L:' + dump(t)] = ('lit', False, t)
+                    f3['L:' + dump(nt)] = ('lit', True, t)
                 if eq_const_static(t) and is_pure(t.left):
                     f2[dump(t.left)] = ('eq', repr(t.comparators[0].value), t.left)
                     prev = f3.get(dump(t.left))
@@ -535,10 +542,24 @@ class Normalizer:
                 st.orelse = self.under_facts(st.orelse, self.kill_facts(st.orelse, f3))
                 out.append(st)
             else:
+                compound = False
                 for f in ('body', 'orelse', 'finalbody'):
                     b = getattr(st, f, None)
                     if isinstance(b, list) and b and isinstance(b[0], ast.stmt) and not isinstance(st, (ast.FunctionDef, ast.ClassDef)):
                         setattr(st, f, self.under_facts(b, {}))
+                        compound = True
+                if not compound and facts and any(isinstance(x, ast.IfExp) for x in ast.walk(st)):
+                    nz = self
+
+                    class FX(ast.NodeTransformer):
+                        def visit_IfExp(self, n):
+                            self.generic_visit(n)
+                            t2 = nz.decide_test(n.test, facts)
+                            ok2, val2 = inline._Fold._const(t2)
+                            if ok2:
+                                return n.body if val2 else n.orelse
+                            return n
+                    st = FX().visit(st)
                 out.append(st)
             # a statement that re-binds what a fact talks about ends the fact
             facts = self.kill_facts([st], facts)
@@ -582,6 +603,9 @@ class Normalizer:
             if not keep:
                 return ast.Constant(value=isinstance(t.op, ast.And))
             return keep[0] if len(keep) == 1 else ast.BoolOp(op=t.op, values=keep)
+        lit = facts.get('L:' + dump(canon_test(t))) if not isinstance(t, ast.Constant) else None
+        if lit is not None:
+            return ast.Constant(value=lit[1])
         if isinstance(t, ast.Compare) and len(t.ops) == 1 and isinstance(t.ops[0], (ast.Eq, ast.NotEq)) and isinstance(t.comparators[0], ast.Constant):
             f = facts.get(dump(t.left))
             if f:
@@ -1081,7 +1105,13 @@ class Normalizer:
                         continue
                     names, attrs = reads(st.value)
                     names.discard(v)
-                    has_sub = any(isinstance(n, ast.Subscript) for n in ast.walk(st.value))
+                    # shape metadata of an array that is never resized in place is not changed by calls
+                    meta = {a for a in attrs if a.split('.')[-1] in ('shape', 'dtype', 'ndim') and a.count('.') == 1 and a.split('.')[0] != 'self'}
+                    only_meta_subs = all(isinstance(n.value, ast.Attribute) and dotted(n.value) in meta and isinstance(n.slice, ast.Constant)
+                                         for n in ast.walk(st.value) if isinstance(n, ast.Subscript))
+                    if meta and only_meta_subs and not any(isinstance(n, ast.Call) for n in ast.walk(st.value)):
+                        attrs = attrs - meta
+                    has_sub = any(isinstance(n, ast.Subscript) for n in ast.walk(st.value)) and not (meta and only_meta_subs)
                     state = bool(attrs) or has_sub or any(isinstance(n, ast.Call) for n in ast.walk(st.value))
                     killers = set()
                     for k, n in cfg.nodes.items():
@@ -1584,7 +1614,10 @@ class Normalizer:
             for blk in self.blocks(fn):
                 for st in list(blk):
                     if isinstance(st, ast.Assign) and len(st.targets) == 1 and isinstance(st.targets[0], ast.Name) and st.targets[0].id not in readn \
-                            and st.targets[0].id not in self.params and is_pure(st.value) and not any(isinstance(n, (ast.Global, ast.Nonlocal)) for n in ast.walk(fn)):
+                            and st.targets[0].id not in self.params \
+                            and not any(isinstance(c, ast.Call) and not (is_pure(c) or state_preserving_call(c)) for c in ast.walk(st.value)) \
+                            and not any(isinstance(c, (ast.Yield, ast.YieldFrom, ast.Await, ast.NamedExpr)) for c in ast.walk(st.value)) \
+                            and not any(isinstance(n, (ast.Global, ast.Nonlocal)) for n in ast.walk(fn)):
                         blk.remove(st)
                         removed = True
             if not removed:
@@ -1777,6 +1810,14 @@ class ExprCanon(ast.NodeTransformer):
     def visit_Call(self, n):
         self.generic_visit(n)
         d = dotted(n.func)
+        # f(a if c else b) -> f(a) if c else f(b)   (f pure, a single conditional argument)
+        conds = [k for k, a in enumerate(n.args) if isinstance(a, ast.IfExp)]
+        if len(conds) == 1 and not n.keywords and is_pure(n) and cost(n) < 40:
+            k = conds[0]
+            e = n.args[k]
+            a1 = ast.Call(func=copy.deepcopy(n.func), args=n.args[:k] + [e.body] + n.args[k + 1:], keywords=[])
+            a2 = ast.Call(func=copy.deepcopy(n.func), args=copy.deepcopy(n.args[:k]) + [e.orelse] + copy.deepcopy(n.args[k + 1:]), keywords=[])
+            return self.visit_IfExp(ast.IfExp(test=e.test, body=self.visit_Call(a1), orelse=self.visit_Call(a2)))
         # dict(a=x, b=y) -> {'a': x, 'b': y}
         if d == 'dict' and not n.args and n.keywords and all(k.arg for k in n.keywords):
             return ast.Dict(keys=[ast.Constant(value=k.arg) for k in n.keywords], values=[k.value for k in n.keywords])
